@@ -14,6 +14,10 @@
   of survivor `i` (the order-preserving renumbering σ⁻¹ of DESIGN.md).
 -/
 import Hw.Attr.DistancesLemmas
+import Hw.Attr.GroupingSets
+import Hw.Attr.GroupingClosure
+import Hw.Attr.GroupingWalk
+import Hw.Attr.GroupingValue
 namespace Hw.Props.C13
 open Hw.Dist
 
@@ -305,6 +309,162 @@ theorem C13_transform_first_port (p : Pub) (i : Nat) (hf : firstSw p.objs = some
 /-- MERGE_SWITCH_PORTS fails with ENOENT (structure untouched) when there is no port -/
 theorem C13_transform_merge_no_port (p : Pub) (hf : firstSw p.objs = none) : trMerge p = (some .ENOENT, p) := by
   simp [trMerge, hf]
+
+/-! ## 9. grouping by distances at the default accuracy (`hwloc__groups_by_distances`, model `Hw.Attr.Grouping`)
+
+"Grouping triggered at commit only inserts Groups consistent with C01."  The model is the integer algorithm the code runs when
+`HWLOC_GROUPING_ACCURACY` is unset (accuracy 0.0f only); the distances engine predicts the inserted Groups with it on every run. -/
+section grouping
+open Hw.Grouping
+
+/-- `hwloc__check_grouping_matrix` (accuracy 0) accepts exactly the matrices whose cells above the diagonal equal their mirror cell and
+exceed the diagonal cell of their row (the diagonal of the last row is never looked at) -/
+theorem C13_group_check_matrix_iff (M : Mat) (n : Nat) :
+    checkMatrix M n = true ↔ ∀ i j, i < j → j < n → M i j = M j i ∧ M i i < M i j :=
+  checkMatrix_iff M n
+
+/-- nothing is grouped for at most two objects, for a kind without LATENCY / HOPS (bandwidth: the code has no max-distance variant),
+or when the user's matrix fails the validity check -/
+theorem C13_group_refused (kind f n : Nat) (M : Mat) (b : Bool)
+    (h : n ≤ 2 ∨ kind &&& KIND_GROUPABLE = 0 ∨ (b = true ∧ checkMatrix M n = false)) : rounds kind f n M b = [] :=
+  rounds_refused kind f n M b h
+
+/-- the fuel of the `while (firstfound != -1)` rescan loop suffices: with `n + 1` passes the loop of the model always ends by itself
+(every pass that sets `newfirstfound` groups at least one more of the `n` objects) -/
+theorem C13_group_closure_fuel (M : Mat) (md gid n ff : Nat) (ids : Nat → Nat) (size : Nat) (hg : gid ≠ 0) :
+    ∃ r, grow M md gid n (n + 1) ff ids size = some r :=
+  grow_fuel M md gid n hg (n + 1) ff ids size (by omega)
+
+/-- **group ids partition the objects**: whenever `hwloc__find_groups_by_min_distance` returns `nb ≠ 0` groups for an `n × n` matrix,
+every object has one id in `0..nb` (0 = left alone), objects beyond `n` have none, and every id `1..nb` has at least two members -/
+theorem C13_group_ids_partition (M : Mat) (n : Nat) (h : (findGroups M n).1 ≠ 0) :
+    (∀ x, (findGroups M n).2 x ≤ (findGroups M n).1) ∧ (∀ x, n ≤ x → (findGroups M n).2 x = 0) ∧
+    ∀ g, 1 ≤ g → g ≤ (findGroups M n).1 →
+      ∃ a b, a ≠ b ∧ a < n ∧ b < n ∧ (findGroups M n).2 a = g ∧ (findGroups M n).2 b = g :=
+  ⟨(findGroups_spec M n h).1, (findGroups_spec M n h).2.1, (findGroups_spec M n h).2.2.1⟩
+
+/-- **same id ⇒ connected**: every class has a seed from which each member is reached through cells equal to the minimal distance -/
+theorem C13_group_ids_connected (M : Mat) (n : Nat) (h : (findGroups M n).1 ≠ 0) (a b : Nat)
+    (hab : (findGroups M n).2 a = (findGroups M n).2 b) (ha : (findGroups M n).2 a ≠ 0) :
+    ∃ seed, Conn M (minDist M n) seed a ∧ Conn M (minDist M n) seed b := by
+  obtain ⟨seed, _, hs⟩ := (findGroups_spec M n h).2.2.2.1 _ (Nat.pos_of_ne_zero ha) ((findGroups_spec M n h).1 a)
+  exact ⟨seed, hs a rfl, hs b hab.symm⟩
+
+/-- **closure characterisation**: when "the cell is minimal" is symmetric and transitive among the `n` objects (block-structured
+matrices), two distinct objects get the same non-zero id IFF their cell is minimal, and an object gets no id IFF none of its cells is
+minimal — the ids are exactly the classes of the minimal-distance relation, whatever the order in which the objects are listed.
+(Without transitivity only `C13_group_ids_connected` holds: see `C13_group_closure_not_transitive_witness`.) -/
+theorem C13_group_ids_closure (M : Mat) (n : Nat) (hnb : (findGroups M n).1 ≠ 0)
+    (hsym : ∀ a b, a < n → b < n → M a b = minDist M n → M b a = minDist M n)
+    (htr : ∀ a b c, a < n → b < n → c < n → a ≠ c → M a b = minDist M n → M b c = minDist M n → M a c = minDist M n) :
+    (∀ a b, a < n → b < n → a ≠ b →
+      (((findGroups M n).2 a = (findGroups M n).2 b ∧ (findGroups M n).2 a ≠ 0) ↔ M a b = minDist M n)) ∧
+    (∀ a, a < n → ((findGroups M n).2 a = 0 ↔ ∀ b, b < n → b ≠ a → M a b ≠ minDist M n)) :=
+  findGroups_clique M n hnb hsym htr
+
+/-- the matrix between the groups (`GROUP_VALUE`) is the 2^64-wrapped double sum of the cells between the two groups divided by the
+product of their sizes, and it is symmetric whenever the matrix is: the recursion may skip the symmetry check (`needcheck = 0`) -/
+theorem C13_group_matrix_symmetric (M : Mat) (n : Nat) (ids : Nat → Nat) (hs : ∀ i j, i < n → j < n → M i j = M j i) (a b : Nat) :
+    groupValue M n ids a b = groupValue M n ids b a ∧
+    groupValue M n ids a b = (sumL (fun i => sumL (fun j => M i j) (members ids n (b+1))) (members ids n (a+1))) % Hw.Grouping.W64
+        / ((members ids n (a+1)).length * (members ids n (b+1)).length) :=
+  ⟨groupValue_symm M n ids hs a b, groupValue_eq M n ids a b⟩
+
+/-- a round has at most `n / 2` groups, so the recursion on the matrix between the groups terminates: any fuel `≥ n` gives the same
+list of rounds -/
+theorem C13_group_rounds_fuel (kind f n : Nat) (M : Mat) (b : Bool) (hf : n ≤ f) : rounds kind f n M b = rounds kind n n M b :=
+  rounds_fuel kind f n n M b hf (Nat.le_refl n)
+
+/-- every round of the recursion is well-shaped: at most `n / 2` groups, each with at least two members, an object in one group at most -/
+theorem C13_group_round_shape (kind f n : Nat) (M : Mat) (b : Bool) (r : Round) (hr : r ∈ rounds kind f n M b) :
+    2 * r.nb ≤ r.n ∧ (∀ g, g < r.nb → 2 ≤ (r.members g).length) ∧
+    ∀ g1 g2 i, i ∈ r.members g1 → i ∈ r.members g2 → g1 = g2 :=
+  ⟨(rounds_good kind f n M b r hr).halves, fun _ hg => members_two (rounds_good kind f n M b r hr) hg,
+   fun _ _ _ h1 h2 => members_disjoint h1 h2⟩
+
+/-- the cpusets of the Groups of one round (unions of their members' cpusets) are pairwise disjoint when the objects' are -/
+theorem C13_group_round_disjoint (sets : Nat → Nat) (r : Round) (g1 g2 : Nat) (hg : g1 ≠ g2)
+    (h : ∀ i j, i < r.n → j < r.n → i ≠ j → Hw.Topo.Ins.dj (sets i) (sets j)) :
+    Hw.Topo.Ins.dj (groupSet sets r g1) (groupSet sets r g2) :=
+  groupSet_disjoint sets r g1 g2 hg h
+
+/-- **consistent with C01**: inserting the Groups of a round (for ANY matrix and ANY objects whose cpusets lie inside the root, disjoint
+or not) through the model of `hwloc___insert_object_by_cpuset` never loses an object and leaves a laminar tree with the same root
+(instance of the C01 theorem on sequences of insertions) -/
+theorem C13_group_round_insert_laminar (t : Hw.Topo.Ins.T) (hL : Hw.Topo.Ins.Lam t) (sets : Nat → Nat) (r : Round)
+    (subkind base : Nat) (hs : ∀ i, i < r.n → Hw.Topo.Ins.sub (sets i) t.o.key) :
+    ∃ t', Hw.Topo.Ins.insAll t (roundObjs sets r subkind base) = some t' ∧ Hw.Topo.Ins.Lam t' ∧ t'.o.key = t.o.key ∧
+      ∀ g, Hw.Topo.Ins.cntT g t ≤ Hw.Topo.Ins.cntT g t' ∧
+           Hw.Topo.Ins.cntT g t' ≤ Hw.Topo.Ins.cntT g t + ((roundObjs sets r subkind base).map (·.gp)).count g :=
+  round_insert_laminar t hL sets r subkind base hs
+
+/-- **the whole grouping of one commit is consistent with C01**: the model of everything `hwloc__groups_by_distances` does to the
+tree (every Group of every round through `hwloc_topology_insert_group_object` incl. merges, refusals, the cut after a failed round and
+the `add_children_sets` / reorder fix-up — `Hw.Grouping.walk`, the function the engine's prediction runs) maps a laminar tree to a
+laminar tree with the same root set, for every list of rounds, every object sets and every environment -/
+theorem C13_group_commit_laminar (e : GEnv) (rs : List Round) (sets : Nat → Nat) (sk base : Nat) (t : Hw.Topo.Ins.T)
+    (h : Hw.Topo.Ins.Lam t) :
+    Hw.Topo.Ins.Lam (walk e rs sets sk base t).1 ∧ (walk e rs sets sk base t).1.o.key = t.o.key ∧
+    sk ≤ (walk e rs sets sk base t).2 ∧ (walk e rs sets sk base t).2 ≤ sk + rs.length :=
+  ⟨(walk_lam e rs sets sk base t h).1, (walk_lam e rs sets sk base t h).2, walk_subkind_le e rs sets sk base t⟩
+
+/-! non-vacuity: 4 objects in two pairs (cells 1 inside a pair, 2 across) -/
+def pairs4 : Mat := fun i j => if i = j then 0 else if i / 2 = j / 2 then 1 else 2
+
+example : (findGroups pairs4 4).1 = 2 ∧ (List.range 4).map (findGroups pairs4 4).2 = [1, 1, 2, 2] := by decide +kernel
+example : checkMatrix pairs4 4 = true ∧ rounds 5 4 4 pairs4 true = [⟨4, 2, [1, 1, 2, 2]⟩] := by decide +kernel
+/-- an asymmetric cell: refused -/
+example : checkMatrix (fun i j => if i = j then 0 else if (i, j) = (0, 1) then 2 else 1) 3 = false ∧
+    rounds 5 3 3 (fun i j => if i = j then 0 else if (i, j) = (0, 1) then 2 else 1) true = [] := by decide +kernel
+/-- a bandwidth kind (8 | FROM_OS): refused whatever the matrix -/
+example : rounds 9 4 4 pairs4 true = [] := by decide +kernel
+
+/-- cells near 2^64 wrap in the sum between two groups: (2^64-1 + 2^64-1 + 3 + 3) mod 2^64 / 4 = 1 -/
+example : groupValue (fun i j => if i = j then 0 else if i / 2 = j / 2 then 1 else if (i + j) % 2 = 1 then U64MAX else 3) 4
+    (fun i => i / 2 + 1) 0 1 = 1 := by decide +kernel
+
+/-- `pairs4` meets the hypotheses of `C13_group_ids_closure` -/
+example : ((findGroups pairs4 4).2 0 = (findGroups pairs4 4).2 1 ∧ (findGroups pairs4 4).2 0 ≠ 0) ↔ pairs4 0 1 = minDist pairs4 4 := by
+  have hs : ∀ a, a < 4 → ∀ b, b < 4 → pairs4 a b = minDist pairs4 4 → pairs4 b a = minDist pairs4 4 := by decide +kernel
+  have ht : ∀ a b c : Fin 4, a.val ≠ c.val → pairs4 a b = minDist pairs4 4 → pairs4 b c = minDist pairs4 4 →
+      pairs4 a c = minDist pairs4 4 := by decide +kernel
+  exact (C13_group_ids_closure pairs4 4 (by decide +kernel) (fun a b ha hb => hs a ha b hb)
+    (fun a b c ha hb hc => ht ⟨a, ha⟩ ⟨b, hb⟩ ⟨c, hc⟩)).1 0 1 (by omega) (by omega) (by omega)
+
+/-- 8 objects, pairs inside quads: two nested rounds (4 Groups, then 2 Groups of Groups; the last level would be a single group) -/
+example : (rounds 5 8 8 (fun i j => if i = j then 0 else if i / 2 = j / 2 then 1 else if i / 4 = j / 4 then 3 else 7) true).map (·.ids)
+    = [[1, 1, 2, 2, 3, 3, 4, 4], [1, 1, 2, 2]] := by decide +kernel
+/-- the Group sets of the first round over PUs `{i}` are the pairs, inside a root `0xff` -/
+example : (List.range 2).map (groupSet (fun i => 1 <<< i) ⟨4, 2, [1, 1, 2, 2]⟩) = [0x3, 0xc] := by decide +kernel
+
+/-- four PUs below a machine, the two Groups of the round above: both are inserted, each adopts its pair -/
+example : (match Hw.Topo.Ins.insAll (.node { gp := 0, type := Hw.Topo.tMACHINE, key := 0xf }
+        [.node { gp := 1, type := Hw.Topo.tPU, key := 1 } [], .node { gp := 2, type := Hw.Topo.tPU, key := 2 } [],
+         .node { gp := 3, type := Hw.Topo.tPU, key := 4 } [], .node { gp := 4, type := Hw.Topo.tPU, key := 8 } []])
+      (roundObjs (fun i => 1 <<< i) ⟨4, 2, [1, 1, 2, 2]⟩ 0 100) with | some t' => Hw.Topo.Ins.rows 0 t' | none => [])
+    = [(0, 0, [], []), (100, 0, [900, 0, 0], []), (1, 100, [], []), (2, 100, [], []),
+       (101, 0, [900, 0, 0], []), (3, 101, [], []), (4, 101, [], [])] := by decide +kernel
+
+/-- the same through the walk of a whole commit: 8 PUs, pairs inside quads, two nested rounds (4 Groups of subkind 0, 2 of subkind 1) -/
+example : (let M : Mat := fun i j => if i = j then 0 else if i / 2 = j / 2 then 1 else if i / 4 = j / 4 then 3 else 7
+    let r := walk ⟨0, 0xff, 1, []⟩ (rounds 5 8 8 M true) (fun i => 1 <<< i) 0 100
+      (.node { gp := 0, type := Hw.Topo.tMACHINE, key := 0xff }
+        ((List.range 8).map (fun i => .node { gp := i + 1, type := Hw.Topo.tPU, key := 1 <<< i } [])))
+    (((Hw.Topo.Ins.objsT r.1).filter (fun o => o.type == Hw.Topo.tGROUP)).map (fun o => (o.gp, o.key, o.subkind)), r.2))
+    = ([(104, 0xf, 1), (100, 0x3, 0), (101, 0xc, 0), (105, 0xf0, 1), (102, 0x30, 0), (103, 0xc0, 0)], 2) := by decide +kernel
+
+/-- The closure is NOT always transitive (candidate finding, outside the property): `newfirstfound` is the FIRST object found in a
+pass, not the smallest one, so a member found later with a smaller index is never rescanned.  On the path 0–2–1–3 (all four cells
+minimal) the code returns the single group {0,1,2} and leaves 3 alone although `M 1 3` is minimal — the true closure is one group of all
+objects, which the give-up rule would drop.  The model follows the code (the harness confirms: a Group of three NUMA nodes is created). -/
+def path4 : Mat := fun i j =>
+  if i = j then 0 else if (i, j) ∈ [(0, 2), (2, 0), (2, 1), (1, 2), (1, 3), (3, 1)] then 1 else 2
+
+theorem C13_group_closure_not_transitive_witness :
+    checkMatrix path4 4 = true ∧ minDist path4 4 = 1 ∧ path4 1 3 = 1 ∧
+    (findGroups path4 4).1 = 1 ∧ (List.range 4).map (findGroups path4 4).2 = [1, 1, 1, 0] := by decide +kernel
+
+end grouping
 
 /-! ## non-vacuity -/
 
